@@ -785,3 +785,52 @@ let init background exit0 ws =
 let arch_of s =
   { pc = s.s_pc; areg = s.s_areg; breg = s.s_breg; oreg = s.s_oreg; mem =
     s.s_mem }
+
+type symtab = (string * coq_Z) list
+
+(** val lookup_scan : symtab -> coq_Z -> string option **)
+
+let rec lookup_scan tab pc0 =
+  match tab with
+  | [] -> None
+  | p :: r ->
+    let (n, o) = p in
+    (match r with
+     | [] -> if Z.leb o pc0 then Some n else None
+     | p0 :: _ ->
+       let (_, o2) = p0 in
+       if (&&) (Z.leb o pc0) (Z.ltb pc0 o2) then Some n else lookup_scan r pc0)
+
+(** val lookup_symbol : symtab -> coq_Z -> string option **)
+
+let lookup_symbol tab pc0 =
+  match tab with
+  | [] -> None
+  | p :: _ ->
+    let (_, o0) = p in if Z.ltb pc0 o0 then None else lookup_scan tab pc0
+
+(** val map_offset : symtab -> string -> coq_Z -> coq_Z **)
+
+let rec map_offset tab name acc =
+  match tab with
+  | [] -> acc
+  | p :: r ->
+    let (n, o) = p in map_offset r name (if eqb n name then o else acc)
+
+(** val trace_symbol : symtab -> coq_Z -> (string * coq_Z) option **)
+
+let trace_symbol tab pc0 =
+  match lookup_symbol tab pc0 with
+  | Some n -> Some (n, (Z.sub pc0 (map_offset tab n Z0)))
+  | None -> None
+
+(** val trace_prefix :
+    symtab -> sim -> (((coq_Z * coq_Z) * (string * coq_Z)
+    option) * coq_Z) * coq_Z **)
+
+let trace_prefix tab s =
+  let instr = sim_fetch s in
+  ((((s.s_cycles, s.s_pc), (trace_symbol tab s.s_pc)),
+  (Z.coq_land (Z.shiftr instr (Zpos (Coq_xO (Coq_xO Coq_xH)))) (Zpos (Coq_xI
+    (Coq_xI (Coq_xI Coq_xH)))))),
+  (Z.coq_land instr (Zpos (Coq_xI (Coq_xI (Coq_xI Coq_xH))))))
